@@ -4,6 +4,7 @@ CONSTANTS
   MaxInj = 2
   Classes <- AllClasses
   AutoChoices <- BothFlags
+  Layouts <- AllLayouts
   Bug = "none"
 INVARIANT TypeOK
 INVARIANT AutoresetFinite
@@ -14,4 +15,7 @@ INVARIANT Contained
 INVARIANT NothingLeft
 PROPERTY BadStateDetected
 PROPERTY BadVelDetected
+PROPERTY AwakeAccDetected
+PROPERTY SleeperAccDetected
+PROPERTY TouchWakes
 CHECK_DEADLOCK FALSE
